@@ -365,6 +365,10 @@ impl<'a> Runner<'a> {
                 }
             }
             LenClass::Over4M => model::MAX_VALUE + 1,
+            LenClass::Wide(n, o) => {
+                let v = ((n as usize - 1) * 4096 + 1 + (o as usize % 4095)) as i64 - over as i64;
+                (v.max(1) as usize).min(cap).min(model::MAX_VALUE)
+            }
         }
     }
 
@@ -373,6 +377,9 @@ impl<'a> Runner<'a> {
         let gen = self.gen_no;
         let key_id = key_id_of(self.case, key);
         let len = self.resolve_len(v.len, key.len());
+        if len > 256 * 4096 && len <= model::MAX_VALUE {
+            self.stats.hit("value.extent_over_256_blocks");
+        }
         let mut out = match v.kind {
             ValKind::Counter(x) => return Arc::new(x.to_le_bytes().to_vec()),
             ValKind::Json => {
@@ -655,6 +662,11 @@ impl<'a> Runner<'a> {
     fn step_call(&mut self, step: usize, call: &Call) -> Result<(), Failure> {
         let key = call.key().map(|k| k.to_vec());
         let pre_peek = key.as_ref().and_then(|k| self.store().verif_peek(k));
+        if let Some(p) = &pre_peek {
+            if p.value_len > 256 * 4096 && p.sector != 0 && !matches!(call, Call::Get { .. }) {
+                self.stats.hit("modify.key_with_durable_extent_over_256_blocks");
+            }
+        }
         // tier bookkeeping for reads
         if let (Call::Get { key, .. }, Some(p)) = (call, &pre_peek) {
             let tier = if p.resident { "read.mem" } else if p.cached { "read.cache" } else { "read.disk" };
@@ -681,6 +693,12 @@ impl<'a> Runner<'a> {
                 }
                 if expired > 0 && live > 0 {
                     self.stats.hit("range_with_expired_inside");
+                }
+                if inside.len() > 256 {
+                    self.stats.hit("range_over_256_index_entries");
+                    if expired > 0 {
+                        self.stats.hit("range_over_256_index_entries_with_expired");
+                    }
                 }
                 if *limit > 0 && *limit < live {
                     self.stats.hit("range_limit_cut");
@@ -1131,6 +1149,26 @@ impl<'a> Runner<'a> {
         }
         if let Some(p) = dec.problems.first() {
             return Err(self.fail("layout", "layout-problem", step, format!("independent reader: {p} ({} problems)", dec.problems.len())));
+        }
+        // a reader that honours a marker's block count skips [s, s + remaining): no live record may
+        // lie inside that span, wherever in a retired extent the reader meets the marker
+        {
+            let mut extents: Vec<(u64, u64)> = dec.live.values().map(|r| (r.sector, r.blocks)).collect();
+            extents.sort();
+            for (s, c) in &dec.classes {
+                if let layout::BlockClass::Marker { remaining, ok: true } = c {
+                    let end = s + remaining;
+                    let i = extents.partition_point(|(a, n)| a + n <= *s);
+                    if let Some((a, n)) = extents.get(i) {
+                        if *a < end {
+                            return Err(self.fail("layout", "marker-spans-live-record", step, format!("retirement marker at block {s} announces {remaining} retired blocks (up to block {end}) but the live record at {a}+{n} lies inside that span: a reader skipping the announced extent loses it")));
+                        }
+                    }
+                    if *remaining > 256 {
+                        self.stats.hit("layout_marker_chain_over_256_blocks");
+                    }
+                }
+            }
         }
         if dec.all_records.len() != dec.live.len() {
             return Err(self.fail("layout", "superseded-generation-on-disk", step, format!("{} records on disk for {} keys after flush: superseded generations were not retired", dec.all_records.len(), dec.live.len())));
